@@ -2,6 +2,7 @@ import ServiceModel.Proofs.Reachable
 import ServiceModel.Proofs.CtxOrigin
 import ServiceModel.Proofs.OneShot
 import ServiceModel.Proofs.Cadence
+import ServiceModel.Proofs.GhostRestart
 /-!
 # C10 — Repeated invocations keep their cadence and respect their total (state part)
 -/
@@ -135,5 +136,39 @@ theorem tracked_context_on_schedule (hc : CfgOK cfg p) {s : State} {g : Ghost} (
     the new-batch handler of any queue entry leaves the flag down. -/
 theorem new_batch_handler_keeps_cadence (s : State) (c : CtxId) (h : Inv s) (g : Ghost) (hk : CadOK s g) :
     (gNew g s c).bad = false := (newBatch_cad s c h g hk).1
+
+/-! ### cadence over chains that go through zero-height restarts
+
+`GReachR` is `GReach` with one more constructor: a restart, at which the observer forgets every recorded start (the
+restart pauses every context and cancels the batch in flight; the consumer has to start the context again, and the
+batch it then gets is not bound to the schedule of the old chain) and keeps its flag. -/
+
+/-- Cadence over every chain with any number of restarts: the flag is never raised. -/
+theorem cadence_never_broken_across_restarts (hc : CfgOK cfg p) {s : State} {g : Ghost}
+    (hr : GReachR cfg p h0 t0 s g) : g.bad = false := (cad_reachableR hc hr).1
+
+/-- … and a tracked context of such a chain is running and on schedule. -/
+theorem tracked_context_on_schedule_across_restarts (hc : CfgOK cfg p) {s : State} {g : Ghost}
+    (hr : GReachR cfg p h0 t0 s g) (c : CtxId) (L : Int) (x : Ctx) (hL : Map.get g.last c = some L)
+    (hx : Map.get s.ctxs c = some x) :
+    x.state = .running ∧
+      (Map.get s.expH c = some (L + x.timeout) ∨ Map.get s.newH c = some (L + (x.freq : Int))) :=
+  ((cad_reachableR hc hr).2 c L hL).2 x hx
+
+/-- Every state of a chain with restarts is observed (the observer does not restrict the chain). -/
+theorem every_chain_with_restarts_is_observed {s : State} (hr : ReachableR cfg p h0 t0 s) :
+    ∃ g, GReachR cfg p h0 t0 s g := reachableR_has_ghost hr
+
+/-- The state clauses over chains with restarts: never two batches in flight … -/
+theorem single_flight_across_restarts (hc : CfgOK cfg p) {s : State} (hr : ReachableR cfg p h0 t0 s) (c : CtxId) :
+    Map.get s.newH c = none ∨ Map.get s.expH c = none := (reachableR_invAll hc hr).inv.x.single c
+
+/-- … and a repeated context with a positive total never has had more batches (issued or skipped) than that total:
+    a restart gives the context back with the counter it had — the batch it cancels stays counted. (The *one-shot*
+    clause `one_shot_at_most_one_batch` is not restated: a one-shot context whose only batch a restart cancelled can be
+    started again on the new chain and is then served — and charged — once; DESIGN.md §10.9.) -/
+theorem batches_never_exceed_total_across_restarts (hc : CfgOK cfg p) {s : State} (hr : ReachableR cfg p h0 t0 s)
+    (c : CtxId) (x : Ctx) (hx : Map.get s.ctxs c = some x) (hrep : x.rep = true) (hpos : 0 < x.total) :
+    (x.batch : Int) ≤ x.total := totBoundedR hc hr c x hx hrep hpos
 
 end SM.C10
